@@ -255,6 +255,25 @@ fn record(cell: &Cell, rep: &mut Report) {
     for (sig, msg) in check(&run) {
         rep.violation(format!("stack:{}", sig), format!("{}: {}", cell.to_json(), msg), cell.to_json());
     }
+    // the same cell with the handle built before any of its directories existed
+    if matches!(cell.op, MOp::Get | MOp::Touch | MOp::Ensure | MOp::Gou(_)) && cell.contents.iter().any(|&c| c != 0) && cell.checker == 0 {
+        LATE_DIRS.with(|l| l.set(true));
+        let r2 = run_cell(cell);
+        LATE_DIRS.with(|l| l.set(false));
+        rep.evaluations += 1;
+        rep.states += 1;
+        rep.traces += 1;
+        rep.transitions += r2.trace.len() as u64;
+        rep.count("late_directory_cells", 1);
+        let mut seen = std::collections::BTreeSet::new();
+        for (sig, msg) in check(&r2) {
+            if seen.insert(sig.clone()) {
+                let mut case = cell.to_json();
+                case["late_dirs"] = serde_json::json!(true);
+                rep.violation(format!("stack:{}", sig), format!("{} [handle built before its directories existed]: {}", cell.to_json(), msg), case);
+            }
+        }
+    }
     // the same cell through a builder driven differently: a checker set first and then cleared (or overridden by
     // the configured one), and the options given in the opposite order; nothing of that may change an answer
     if matches!(cell.op, MOp::Get | MOp::Ensure | MOp::Gou(_)) && cell.contents.iter().filter(|&&c| c != 0).count() >= 1 {
@@ -448,7 +467,8 @@ pub fn run(_tier: Tier, shard: Shard, rep: &mut Report) {
     rep.rule = "full matrix: write side {none, plain, sharded(3)} x read-only list {[], [p], [s], [p,p], [p,s], [s,p], [s,s]} x \
         per-level content {nothing, A, B} (sharded levels: value in the primary or the secondary shard) x operation {get, touch, \
         set, put, set_temp_file, put_temp_file, ensure, get_or_update x {Accept, Promote, Replace}} x populate {value, NotFound, other error}, no \
-        checker, and the hit actions again with a byte-equality checker and populate {value of the first copy, other value, NotFound} (and, for every lookup cell with a later copy, the first copy's open failing with EACCES/EIO/EMFILE: the lookup must fail \
+        checker, the lookup cells again with the handle built before any of its directories existed; \
+        and the hit actions again with a byte-equality checker and populate {value of the first copy, other value, NotFound} (and, for every lookup cell with a later copy, the first copy's open failing with EACCES/EIO/EMFILE: the lookup must fail \
         rather than resolve further down the stack); oracle = stack-resolution reference model on result, judge arguments, populate arguments, per-level before/after \
         snapshots, trace (no level after the first hit is touched), temp-file and source residue. Plus: get_or_update with Replace racing with another writer of the same key (all \
         schedules with <= 2 preemptions): it must return the value it populated. Non-trivial = >= 2 levels and at least one copy present."
